@@ -533,6 +533,8 @@ impl ChainM {
                 let _ = (self.norm_noted(addr, out), self.norm_noted(admin, out));
                 self.set_admin(sender, addr, Some(admin.clone()))
             }
+            // whatever else may be wrong with it, the contract cannot read the payload: no effect
+            Msg::Garbled { .. } => Err(Why::ContractError),
             Msg::ClearAdmin { addr } => {
                 let _ = self.norm_noted(addr, out);
                 self.set_admin(sender, addr, None)
